@@ -27,7 +27,8 @@ PARTIAL = ["extra_validation (nonlinsolve) is not exercised"]
 
 KINDS_UI = ["K1", "K2", "K3", "K4", "K5", "K6"]
 KINDS_CAL = ["K7", "K7b", "K8", "K9"]
-KINDS_EKF = ["K10", "K10b", "K11a", "K11b", "K11c", "K12", "K12b", "K12c", "K13", "K13b", "K14", "K15", "K16", "K17", "K18", "K19"]
+KINDS_EKF = ["K10", "K10b", "K11a", "K11b", "K11c", "K12", "K12b", "K12c", "K13", "K13b", "K13c", "K14", "K15", "K16", "K17", "K18", "K19",
+             "V1", "V2"]       # V*: variants that are still structurally VALID (must be accepted)
 
 
 class Spec:
@@ -169,6 +170,25 @@ def inject(rng, spec, kind, pos=None):
             key = pick([k for k in sorted(s.sensor_noise) if len(s.sensor_noise[k]) >= 1]); del s.sensor_noise[key][pick(sorted(s.sensor_noise[key]))]
         elif kind == "K18":
             key = pick(sorted(s.sensor_noise)); r = pick(sorted(s.sensor_noise[key])); v = s.sensor_noise[key].pop(r); s.sensor_noise[key][fresh(rng, s)] = v
+        elif kind in ("K13c", "V2"):
+            # two sensors have a reading of the same NAME (reading names are per sensor); K13c: the one in the sensor declared first
+            # depends on a control
+            keys = list(s.sensors)
+            if len(keys) < 2:
+                return None
+            a, b = keys[0], keys[1]
+            ra, rb = sorted(s.sensors[a])[0], sorted(s.sensors[b])[0]
+            if ra in s.sensors[b] or b not in s.sensor_noise or rb not in s.sensor_noise[b]:
+                return None
+            s.sensors[b] = {(ra if r == rb else r): e for r, e in s.sensors[b].items()}
+            s.sensor_noise[b] = {(ra if r == rb else r): v for r, v in s.sensor_noise[b].items()}
+            if kind == "K13c":
+                if not s.control:
+                    return None
+                s.sensors[a][ra] = s.sensors[a][ra] + Symbol(pick(s.control))
+        elif kind == "V1":
+            # a control whose process noise is exactly zero (an exactly known input): not negative, so valid
+            i = s.noise.index(pick(s.noise)); s.noise[i] = ("sym", s.noise[i][1], rng.choice([0.0, 0, -0.0]))
         elif kind == "K19":
             # a reading's noise entry is missing; a second entry for ANOTHER reading (same name, the other key type) stands in
             # its place, so the count is right
@@ -189,7 +209,7 @@ def inject(rng, spec, kind, pos=None):
 def positions(spec, kind):
     n = {"K1": len(spec.state), "K2": len(spec.state), "K3": len(spec.control), "K4": len(spec.update), "K6": len(spec.update),
          "K7": len(spec.calmap), "K9": len(spec.calmap), "K10": len(spec.noise), "K11a": len(spec.state), "K11c": len(spec.noise),
-         "K12": len(spec.noise), "K12b": len(spec.noise), "K12c": len(spec.noise), "K19": len(spec.sensor_noise), "K10b": len(spec.noise), "K13": len(spec.sensors), "K13b": len(spec.sensors), "K14": len(spec.sensors), "K15": len(spec.sensor_noise),
+         "K12": len(spec.noise), "V1": len(spec.noise), "K12b": len(spec.noise), "K12c": len(spec.noise), "K19": len(spec.sensor_noise), "K10b": len(spec.noise), "K13": len(spec.sensors), "K13b": len(spec.sensors), "K14": len(spec.sensors), "K15": len(spec.sensor_noise),
          "K17": len(spec.sensor_noise), "K18": len(spec.sensor_noise)}.get(kind, 1)
     return range(max(n, 0))
 
@@ -323,7 +343,7 @@ def run(ctx):
             if "files-written" in outcome:
                 ctx.fail(f"refused-but-written:{ep}", f"{ep} refused the definition but left generated files behind", c)
             if accepted != valid:
-                symkeys = ":symbol-keyed-readings" if (rsyms and maxr >= 2 and kind == "valid") else ""
+                symkeys = ":symbol-keyed-readings" if (rsyms and maxr >= 2 and (kind == "valid" or kind.startswith("V"))) else ""
                 if valid:
                     ctx.fail(f"valid-refused:{ep}{symkeys}", f"{ep} refuses a structurally valid definition ({outcome})", c)
                 else:
